@@ -511,9 +511,25 @@ fn cmd_miri_gen(args: &[String]) {
         if !ok {
             std::process::exit(2);
         }
-        // a workload worth the Miri budget has at least two threads executing something
+        // a workload worth the Miri budget has at least two threads executing something, exercises
+        // concatenation, and is small enough for an interpreter that is ~1000x slower than native code:
+        // measure it natively first (same code path the Miri process will take)
         let busy = w.threads.iter().filter(|t| t.ops.iter().any(|o| matches!(o, Op::Exec { .. }))).count();
         if busy < 2 {
+            continue;
+        }
+        let probe = run_workload(
+            &w,
+            &RunOptions {
+                explicit_schedule: None,
+                free_run: true,
+                use_ast: true,
+            },
+        );
+        let steps = probe.stats.solo_steps + probe.stats.conc_steps;
+        let appends = probe.stats.probes.site_hits[3] + probe.stats.probes.site_hits[4];
+        let tries = index;
+        if tries < 400 && (probe.violation.is_some() || steps < 150 || steps > 1500 || appends == 0) {
             continue;
         }
         let path = format!("{}/m-{}-{}.json", dir, master, written);
